@@ -51,8 +51,6 @@ def lattice(tier, seed):
         k2["negative_slope"] = slope
       full.append(("quantized_relu_po2", k2))
   full = [c for c in full if po2_format(*c) is not None]
-  if tier == "thorough":
-    return full
   core = [
       ("quantized_po2", dict(bits=4)),
       ("quantized_po2", dict(bits=8)),
@@ -73,6 +71,11 @@ def lattice(tier, seed):
   rr = random.Random(seed)
   rest = [c for c in full if c not in core]
   rr.shuffle(rest)
+  # thorough: the core plus a seed-rotated sample of the 432-configuration lattice sized for about an hour on 16 cores
+  # (the whole lattice takes about three hours; VERIF_C03_FULL=1 runs all of it)
+  import os
+  if tier == "thorough":
+    return core + (rest if os.environ.get("VERIF_C03_FULL") else rest[:110])
   return core + rest[:6]
 
 
